@@ -53,13 +53,23 @@ static void quiet_stderr(void) {
 }
 
 typedef void (*op_handler)(size_t nw, char **w);
+#include <signal.h>
+#include <unistd.h>
+/* per-operation watchdog (off unless VERIF_OP_TIMEOUT=<seconds> is set by the check): an operation that
+ * never returns (a peer left blocked in a read because the other side refused a record, say) ends the
+ * process with "TIMEOUT" on stderr, so the runner reports `FAULT timeout` for that operation and goes on
+ * with the next one in a fresh process instead of waiting for the shard's one-hour limit */
+static void op_watchdog(int sig) { static const char m[] = "\nTIMEOUT op watchdog\n"; (void)sig; if (write(2, m, sizeof(m) - 1) < 0) {} _exit(3); }
 static void main_loop(op_handler h) {
 	char *line = NULL; size_t cap = 0; ssize_t n;
 	char *w[MAXW];
+	const char *ot = getenv("VERIF_OP_TIMEOUT"); unsigned op_timeout = ot ? (unsigned)atoi(ot) : 0;
 	setvbuf(stdout, NULL, _IOFBF, 1 << 16);
 	while ((n = getline(&line, &cap, stdin)) >= 0) {
 		size_t nw = split_words(line, w, MAXW);
+		if (op_timeout) { signal(SIGALRM, op_watchdog); alarm(op_timeout); }
 		if (nw > 0) h(nw, w);
+		if (op_timeout) alarm(0);
 		fputc('\n', stdout);
 		fflush(stdout);
 	}
